@@ -72,7 +72,8 @@ class JobResult:
 
 def _run(cmd, timeout, cwd, log, mem_kb=None):
     t0 = time.time()
-    sh = "ulimit -v %d; exec timeout -k 5 %d %s" % (mem_kb or MEM_KB, timeout, " ".join(_q(c) for c in cmd))
+    # the budget is CPU time (ulimit -t: the same verdict on a loaded and on an idle machine); the wall-clock limit is only a backstop
+    sh = "ulimit -v %d; ulimit -t %d; exec timeout -k 5 %d %s" % (mem_kb or MEM_KB, timeout, 4 * timeout, " ".join(_q(c) for c in cmd))
     p = subprocess.run(["bash", "-c", sh], cwd=cwd, stdout=subprocess.PIPE, stderr=subprocess.PIPE)
     dt = time.time() - t0
     out = p.stdout.decode(errors="replace")
@@ -207,8 +208,8 @@ def run_job(cfile, job, workdir):
             os.remove(f)
         except OSError:
             pass
-    if rc in (124, 137):
-        r.reason = "cbmc timeout after %ds" % job.timeout
+    if rc in (124, 137, 152, 158, -24, -9) or (rc != 0 and dt >= job.timeout and not out.strip()):
+        r.reason = "cbmc timeout after %ds of CPU time" % job.timeout
         return r
     try:
         msgs = json.loads(out)
